@@ -21,6 +21,7 @@ LEVEL_TEXT = ('static: sibling agreement of 30+ convenience methods (names, arit
 LEVEL_NOTE = 'the expansion law itself (recursion over runtime list shapes) is not decided'
 LEVEL_TEXT_ADD = " Also: non-forwarding ChannelList methods must zip their arguments (no parameter inside a comprehension over the channels alone) and list's in-place concatenation must be overridden."
 LEVEL_TEXT_ADD += ' Rounds e-f: convenience methods recurse into nested rows; zero replacement copies; the output chain is judged as one composed expression.'
+LEVEL_TEXT_ADD += ' Round i: a channel list is its own parameter value; every public UGen method has a channel-list sibling.'
 LEVEL_TEXT = (globals().get('LEVEL_TEXT') or EXPLANATION) + LEVEL_TEXT_ADD
 TECHNIQUE = 'static analysis: sibling-signature comparison and AST idiom checks over all constructors'
 
